@@ -58,6 +58,9 @@ func rngSame() bool { panic("spec only") }
 // rngOnly(src): no source other than src was drawn from between the old and the current state.
 func rngOnly(src *rand.PCGSource) bool { panic("spec only") }
 
+// wrapInt(x): x reduced to the two's-complement range of IntType (what Go's + - * do).
+func wrapInt(x IntType) IntType { return x }
+
 // sharedBuiltin(p): p is one of the package's shared built-in values (entries of builtinValues / builtinProto).
 func sharedBuiltin(p any) bool { panic("spec only") }
 
@@ -123,7 +126,7 @@ func wfInstr(c *ByteCode, k, n int) bool {
 	case typePushFloatNumber:
 		_, ok := c.Value.(float64)
 		return ok
-	case typePushString, typeLoadName, typeLoadNameRaw, typeLoadNameWithDetail, typeStoreName, typeAttrGet, typeAttrSet:
+	case typePushString, typeLoadName, typeLoadNameRaw, typeLoadNameWithDetail, typeStoreName, typeStoreNameLocal, typeAttrGet, typeAttrSet:
 		_, ok := c.Value.(string)
 		return ok
 	case typePushArray, typePushDict, typeInvoke, typeLoadFormatString, typePopN:
@@ -186,7 +189,7 @@ func specPops(c *ByteCode) IntType {
 		return 4
 	case typeSliceSet:
 		return 5
-	case typeAttrGet, typeStoreName, typeJe, typeJeDup, typeJne, typePop, typePositive, typeNegation,
+	case typeAttrGet, typeStoreName, typeStoreNameLocal, typeJe, typeJeDup, typeJne, typePop, typePositive, typeNegation,
 		typeDiceSetTimes, typeDiceSetKeepLowNum, typeDiceSetKeepHighNum, typeDiceSetDropLowNum, typeDiceSetDropHighNum,
 		typeDiceSetMin, typeDiceSetMax, typeDice, typeDiceCocBonus, typeDiceCocPenalty,
 		typeWodSetPoints, typeWodSetThreshold, typeWodSetThresholdQ, typeWodSetPool, typeDiceWod,
@@ -202,7 +205,7 @@ func specPushes(c *ByteCode) IntType {
 	switch c.T {
 	case typePushIntNumber, typePushFloatNumber, typePushString, typePushArray, typePushDict, typePushRange, typePushComputed,
 		typePushNull, typePushThis, typePushFunction, typePushLast, typePushDefaultExpr,
-		typeLoadFormatString, typeLoadName, typeLoadNameWithDetail, typeLoadNameRaw, typeStoreName,
+		typeLoadFormatString, typeLoadName, typeLoadNameWithDetail, typeLoadNameRaw, typeStoreName, typeStoreNameLocal,
 		typeInvoke, typeItemGet, typeAttrGet, typeSliceGet,
 		typeAdd, typeSubtract, typeMultiply, typeDivide, typeModulus, typeExponentiation, typeNullCoalescing,
 		typeCompLT, typeCompLE, typeCompEQ, typeCompNE, typeCompGE, typeCompGT, typeBitwiseAnd, typeBitwiseOr, typeLogicAnd,
@@ -783,18 +786,22 @@ func (*VMValue).ReadNativeObjectData
 
 func (*VMValue).MustReadInt
   props C01 C02 C10
+  requires v.TypeId == VMTypeInt
   inline
 
 func (*VMValue).MustReadFloat
   props C01 C02 C10
+  requires v.TypeId == VMTypeFloat
   inline
 
 func (*VMValue).MustReadArray
   props C01 C02 C10
+  requires v.TypeId == VMTypeArray
   inline
 
 func (*VMValue).MustReadDictData
   props C01 C02 C10
+  requires v.TypeId == VMTypeDict
   inline
 
 func (*VMDictValue).V
@@ -916,8 +923,122 @@ func cloneStrings
   ensures len(result) == len(src) && isFresh(result) && (len(src) > 0 ==> result != nil)
   ensures forall k in [0, len(src)): result[k] == src[k]
 
+
+// ---- types.go: operators (documented run-time rules, GUIDE.md "类型" / operators) ----
+
+func (*VMValue).OpAdd
+  props C02 C01
+  requires ctx != nil && v2 != nil
+  ensures [C02] v.TypeId == VMTypeInt && v2.TypeId == VMTypeInt ==> result != nil && result.TypeId == VMTypeInt && result.Value.(IntType) == wrapInt(old(v.Value.(IntType)) + old(v2.Value.(IntType)))
+  ensures [C02] (v.TypeId == VMTypeInt && v2.TypeId == VMTypeFloat) || (v.TypeId == VMTypeFloat && (v2.TypeId == VMTypeInt || v2.TypeId == VMTypeFloat)) ==> result != nil && result.TypeId == VMTypeFloat
+  ensures [C02] v.TypeId == VMTypeString && v2.TypeId == VMTypeString ==> result != nil && result.TypeId == VMTypeString && result.Value.(string) == old(v.Value.(string)) + old(v2.Value.(string))
+  ensures [C02] v.TypeId == VMTypeArray && v2.TypeId == VMTypeArray && old(len(v.Value.(*ArrayData).List) + len(v2.Value.(*ArrayData).List)) > 512 ==> result == nil && ctx.Error != nil
+  ensures [C02] v.TypeId == VMTypeArray && v2.TypeId == VMTypeArray && old(len(v.Value.(*ArrayData).List) + len(v2.Value.(*ArrayData).List)) <= 512 ==> result != nil && result.TypeId == VMTypeArray && len(result.Value.(*ArrayData).List) == old(len(v.Value.(*ArrayData).List) + len(v2.Value.(*ArrayData).List)) && ctx.Error == old(ctx.Error)
+  ensures [C02] !(v.TypeId == VMTypeArray && v2.TypeId == VMTypeArray) ==> ctx.Error == old(ctx.Error)
+  ensures [C02] !((v.TypeId == VMTypeInt || v.TypeId == VMTypeFloat) && (v2.TypeId == VMTypeInt || v2.TypeId == VMTypeFloat)) && !(v.TypeId == VMTypeString && v2.TypeId == VMTypeString) && !(v.TypeId == VMTypeArray && v2.TypeId == VMTypeArray) ==> result == nil
+  loop 1
+    invariant len(arrFinal) == len(arr.List) + len(arr2.List) && isFresh(arrFinal) && arrFinal != nil
+    invariant forall k in [0, len(arr.List)): arrFinal[k] != nil
+    invariant forall k in [0, rangeIdx): arrFinal[len(arr.List)+k] != nil
+
+func (*VMValue).OpSub
+  props C02 C01
+  requires v2 != nil
+  ensures [C02] v.TypeId == VMTypeInt && v2.TypeId == VMTypeInt ==> result != nil && result.TypeId == VMTypeInt && result.Value.(IntType) == wrapInt(old(v.Value.(IntType)) - old(v2.Value.(IntType)))
+  ensures [C02] (v.TypeId == VMTypeInt && v2.TypeId == VMTypeFloat) || (v.TypeId == VMTypeFloat && (v2.TypeId == VMTypeInt || v2.TypeId == VMTypeFloat)) ==> result != nil && result.TypeId == VMTypeFloat
+  ensures [C02] !((v.TypeId == VMTypeInt || v.TypeId == VMTypeFloat) && (v2.TypeId == VMTypeInt || v2.TypeId == VMTypeFloat)) ==> result == nil
+
+func (*VMValue).OpDivide
+  props C02 C01
+  requires ctx != nil && v2 != nil
+  ensures [C02] v.TypeId == VMTypeInt && v2.TypeId == VMTypeInt && old(v2.Value.(IntType)) != 0 ==> result != nil && result.TypeId == VMTypeInt && ctx.Error == old(ctx.Error)
+  ensures [C02] v.TypeId == VMTypeInt && v2.TypeId == VMTypeInt && old(v2.Value.(IntType)) != 0 && !(old(v.Value.(IntType)) == math.MinInt64 && old(v2.Value.(IntType)) == -1) ==> result.Value.(IntType) == old(v.Value.(IntType)) / old(v2.Value.(IntType))
+  ensures [C02] v.TypeId == VMTypeInt && v2.TypeId == VMTypeInt && old(v2.Value.(IntType)) == 0 && !ctx.Config.IgnoreDiv0 ==> result == nil && ctx.Error != nil
+  ensures [C02] v.TypeId == VMTypeInt && v2.TypeId == VMTypeInt && old(v2.Value.(IntType)) == 0 && ctx.Config.IgnoreDiv0 ==> result == v && ctx.Error == old(ctx.Error)
+  ensures [C02] !((v.TypeId == VMTypeInt || v.TypeId == VMTypeFloat) && (v2.TypeId == VMTypeInt || v2.TypeId == VMTypeFloat)) ==> result == nil && ctx.Error == old(ctx.Error)
+
+func (*VMValue).OpModulus
+  props C02 C01
+  requires ctx != nil && v2 != nil
+  ensures [C02] v.TypeId == VMTypeInt && v2.TypeId == VMTypeInt && old(v2.Value.(IntType)) != 0 ==> result != nil && result.TypeId == VMTypeInt && result.Value.(IntType) == old(v.Value.(IntType)) % old(v2.Value.(IntType)) && ctx.Error == old(ctx.Error)
+  ensures [C02] v.TypeId == VMTypeInt && v2.TypeId == VMTypeInt && old(v2.Value.(IntType)) == 0 ==> result == nil && ctx.Error != nil
+  ensures [C02] !(v.TypeId == VMTypeInt && v2.TypeId == VMTypeInt) ==> result == nil && ctx.Error == old(ctx.Error)
+
+func (*VMValue).OpNullCoalescing
+  props C02 C01
+  ensures [C02] v.TypeId == VMTypeNull ==> result == v2
+  ensures [C02] v.TypeId != VMTypeNull ==> result == v
+
+func (*VMValue).OpCompLT
+  props C02 C01
+  requires v2 != nil
+  ensures [C02] v.TypeId == VMTypeInt && v2.TypeId == VMTypeInt ==> result != nil && result.TypeId == VMTypeInt && (result.Value.(IntType) == 1 <==> old(v.Value.(IntType)) < old(v2.Value.(IntType))) && (result.Value.(IntType) == 0 || result.Value.(IntType) == 1)
+  ensures [C02] !((v.TypeId == VMTypeInt || v.TypeId == VMTypeFloat) && (v2.TypeId == VMTypeInt || v2.TypeId == VMTypeFloat)) ==> result == nil
+
+func (*VMValue).OpCompLE
+  props C02 C01
+  requires v2 != nil
+  ensures [C02] v.TypeId == VMTypeInt && v2.TypeId == VMTypeInt ==> result != nil && result.TypeId == VMTypeInt && (result.Value.(IntType) == 1 <==> old(v.Value.(IntType)) <= old(v2.Value.(IntType))) && (result.Value.(IntType) == 0 || result.Value.(IntType) == 1)
+  ensures [C02] !((v.TypeId == VMTypeInt || v.TypeId == VMTypeFloat) && (v2.TypeId == VMTypeInt || v2.TypeId == VMTypeFloat)) ==> result == nil
+
+func (*VMValue).OpCompGE
+  props C02 C01
+  requires v2 != nil
+  ensures [C02] v.TypeId == VMTypeInt && v2.TypeId == VMTypeInt ==> result != nil && result.TypeId == VMTypeInt && (result.Value.(IntType) == 1 <==> old(v.Value.(IntType)) >= old(v2.Value.(IntType))) && (result.Value.(IntType) == 0 || result.Value.(IntType) == 1)
+  ensures [C02] !((v.TypeId == VMTypeInt || v.TypeId == VMTypeFloat) && (v2.TypeId == VMTypeInt || v2.TypeId == VMTypeFloat)) ==> result == nil
+
+func (*VMValue).OpCompGT
+  props C02 C01
+  requires v2 != nil
+  ensures [C02] v.TypeId == VMTypeInt && v2.TypeId == VMTypeInt ==> result != nil && result.TypeId == VMTypeInt && (result.Value.(IntType) == 1 <==> old(v.Value.(IntType)) > old(v2.Value.(IntType))) && (result.Value.(IntType) == 0 || result.Value.(IntType) == 1)
+  ensures [C02] !((v.TypeId == VMTypeInt || v.TypeId == VMTypeFloat) && (v2.TypeId == VMTypeInt || v2.TypeId == VMTypeFloat)) ==> result == nil
+
+func (*VMValue).OpBitwiseAnd
+  props C02 C01
+  requires v2 != nil
+  ensures [C02] v.TypeId == VMTypeInt && v2.TypeId == VMTypeInt ==> result != nil && result.TypeId == VMTypeInt && result.Value.(IntType) == old(v.Value.(IntType)) & old(v2.Value.(IntType))
+  ensures [C02] !(v.TypeId == VMTypeInt && v2.TypeId == VMTypeInt) ==> result == nil
+
+func (*VMValue).OpBitwiseOr
+  props C02 C01
+  requires v2 != nil
+  ensures [C02] v.TypeId == VMTypeInt && v2.TypeId == VMTypeInt ==> result != nil && result.TypeId == VMTypeInt && result.Value.(IntType) == old(v.Value.(IntType)) | old(v2.Value.(IntType))
+  ensures [C02] !(v.TypeId == VMTypeInt && v2.TypeId == VMTypeInt) ==> result == nil
+
+func (*VMValue).OpPositive
+  props C02 C01
+  ensures [C02] v.TypeId == VMTypeInt ==> result != nil && result.TypeId == VMTypeInt && result.Value.(IntType) == old(v.Value.(IntType))
+  ensures [C02] v.TypeId == VMTypeFloat ==> result != nil && result.TypeId == VMTypeFloat
+  ensures [C02] v.TypeId != VMTypeInt && v.TypeId != VMTypeFloat ==> result == nil
+
+func (*VMValue).OpNegation
+  props C02 C01
+  ensures [C02] v.TypeId == VMTypeInt ==> result != nil && result.TypeId == VMTypeInt && result.Value.(IntType) == wrapInt(-old(v.Value.(IntType)))
+  ensures [C02] v.TypeId == VMTypeFloat ==> result != nil && result.TypeId == VMTypeFloat
+  ensures [C02] v.TypeId != VMTypeInt && v.TypeId != VMTypeFloat ==> result == nil
+
+func getRealIndex
+  props C02 C01
+  requires ctx != nil
+  ensures [C02] index >= 0 ==> result == index
+  ensures [C02] index < 0 ==> result == wrapInt(length + index)
+  ensures [C02] (0 <= result && result < length) ==> ctx.Error == old(ctx.Error)
+  ensures [C02] !(0 <= result && result < length) ==> ctx.Error != nil
+
+func getClampRealIndex
+  props C02 C01
+  requires length >= 0
+  ensures [C02] 0 <= result && result <= length
+  ensures [C02] 0 <= index && index <= length ==> result == index
+  ensures [C02] index > length ==> result == length
+  ensures [C02] index < 0 && length + index >= 0 ==> result == length + index
+  ensures [C02] index < 0 && length + index < 0 && length + index >= math.MinInt64 ==> result == 0
+
 func NewDictValWithArray
   props C01 C10
+  requires len(arr) % 2 == 0
+  loop 1
+    invariant 0 <= i && i % 2 == 0 && i <= len(arr) && data != nil
   ensures result1 == nil ==> result0 != nil
 
 func (*VMValue).GetSliceEx
